@@ -556,9 +556,24 @@ def model_check(ctx, prop, tier):
     nv = list(NONVAC[prop]["quick"]) + (NONVAC[prop]["thorough"] if ctx.thorough else [])
     jobs += [("nv%d" % i, cfg, why) for i, (cfg, why) in enumerate(nv)]
 
+    if ctx.thorough:
+        jobs.append(("cov", "MC_nv_cov.cfg", "coverage"))
+
     def one(job):
         tag, cfg, why = job
         wd = fresh(tag)
+        if why == "coverage":
+            import re
+            r = ctx.tlc(wd, "MC_C04", cfg, timeout=1500, workers=2, extra=["-coverage", "1"],
+                        label="per-action coverage of the engine model (must be non-zero for every action)")
+            if not r.ok:
+                raise Broken("coverage run failed: %r" % r)
+            counts = {m.group(1): int(m.group(2)) for m in re.finditer(r"^<(\w+) line \d+, col \d+ to line \d+, col \d+ of module FlowEngineI>: (\d+):", r.out, re.M)}
+            missing = [a for a in ("Start", "ProcStep", "EdgeStep", "WalkOver") if counts.get(a, 0) == 0]
+            if missing:
+                raise Broken("vacuous model: actions never taken: %s (%s)" % (missing, counts))
+            ctx.notes.append("TLC -coverage 1 on the nv space: " + ", ".join("%s=%d" % kv for kv in sorted(counts.items())))
+            return r
         if why is None:
             return ctx.tlc_exhaustive(wd, "MC_C04", cfg, timeout=3000, workers=(8 if ctx.thorough else 3),
                                       label="I => P over the %s configuration space (%s)" % (tier, prop))
@@ -676,7 +691,7 @@ def run_property(ctx, prop):
     if prop == "C05":
         for c in rcases[:: (6 if not T else 4)]:
             c["txs"] = c["txs"] + malformed_txs(ctx.rng, 6 if not T else 12)
-        rcases += quota_cases(ctx.rng)
+        rcases += quota_cases(ctx.rng) + flow_file_cases(ctx.rng) + yaml_mutants(ctx.rng, 250 if not T else 3000)
     lines2, refs2, bad2 = exercise(ctx, prop, binary, rcases, "rand", reported)
     account(lines2, refs2, bad2)
     k = next((i for i, l in enumerate(lines2) if l["ev"] == "exec" and any(s.get("sid") for s in l["seq"]) and l["dir"] == "req"), None)
@@ -746,3 +761,97 @@ def replay_property(ctx, prop, path):
         return 1
     print("replay accepted by the specification")
     return 0
+
+
+_HEAD = "name: A\nfilter:\n  url: h.test/x\nprocessors:\n  p:\n    processor: UserDefinedMetrics\n    parameters:\n      - key: metric_name\n        value: m_p\n"
+_OKFLOW = ("flow:\n  request:\n    - from:\n        stream:\n          name: globalStream\n          at: start\n      to:\n        processor:\n          name: p\n"
+           "    - from:\n        processor:\n          name: p\n      to:\n        stream:\n          name: globalStream\n          at: end\n"
+           "  response:\n    - from:\n        stream:\n          name: globalStream\n          at: start\n      to:\n        stream:\n          name: globalStream\n          at: end\n")
+FLOW_FILES = {
+    "ok": _HEAD + _OKFLOW,
+    "null-processor": "name: A\nfilter:\n  url: h.test/x\nprocessors:\n  p:\n" + _OKFLOW,
+    "no-filter": "name: A\nprocessors: {}\n" + _OKFLOW,
+    "null-filter-url": "name: A\nfilter:\n  url:\nprocessors: {}\n" + _OKFLOW,
+    "null-connection": _HEAD + "flow:\n  request:\n    -\n  response:\n    -\n",
+    "null-from": _HEAD + "flow:\n  request:\n    - from:\n      to:\n        processor:\n          name: p\n  response:\n    - from:\n      to:\n",
+    "empty-endpoints": _HEAD + "flow:\n  request:\n    - from: {}\n      to: {}\n  response:\n    - from: {}\n      to: {}\n",
+    "null-stream-ref": _HEAD + "flow:\n  request:\n    - from:\n        stream:\n      to:\n        processor:\n          name: p\n  response:\n    - from:\n        stream:\n      to:\n        stream:\n",
+    "null-flow-section": _HEAD + "flow:\n",
+    "no-flow-section": _HEAD,
+    "dotted-unknown-flow": _HEAD + _OKFLOW.replace("name: p\n      to:\n        stream", "name: nowhere.p\n      to:\n        stream"),
+    "three-part-key": _HEAD + _OKFLOW.replace("          name: p\n    - from", "          name: a.b.p\n    - from"),
+    "param-without-value": _HEAD.replace("        value: m_p\n", "") + _OKFLOW,
+    "duplicate-param": _HEAD + "      - key: metric_name\n        value: again\n" + _OKFLOW,
+    "wrong-param-type": _HEAD.replace("value: m_p", "value: [1, 2, {a: b}]") + _OKFLOW,
+    "unknown-processor-type": _HEAD.replace("UserDefinedMetrics", "NoSuchProcessor") + _OKFLOW,
+    "empty-file": "",
+    "garbage": "name: [A\nfilter: {url\n",
+    "filter-processor-no-criteria": _HEAD.replace("UserDefinedMetrics", "Filter") + _OKFLOW,
+    "filter-bad-status-range": _HEAD.replace("UserDefinedMetrics", "Filter").replace("metric_name", "status_code_range").replace("m_p", "abc-def") + _OKFLOW,
+    "histogram-without-buckets": _HEAD + "      - key: metric_type\n        value: histogram\n" + _OKFLOW,
+    "metric-value-bad-jsonpath": _HEAD + "      - key: metric_value\n        value: \"$..[?(@.x\"\n" + _OKFLOW,
+    "name-empty": _HEAD.replace("name: A", "name: \"\"") + _OKFLOW,
+    "at-values-swapped": _HEAD + _OKFLOW.replace("at: start", "at: START").replace("at: end", "at: start"),
+    "expressions-filter": _HEAD.replace("  url: h.test/x\n", "  url: h.test/x\n  expressions:\n    - \"$.request.headers[?(@\"\n") + _OKFLOW,
+}
+
+
+def flow_file_cases(rng):
+    """hand-written well- and ill-formed flow files (nomodel: only the loader / safety claims of C05 apply)"""
+    base = {"flows": [flow("A", [("p", "Plain")], [conn(S("start"), P("p")), conn(P("p"), S("end"))], [conn(S("start"), S("end"))])],
+            "quotas": []}
+    cases = []
+    for name, content in sorted(FLOW_FILES.items()):
+        c = make_case("flowfile-" + name, base)
+        c["nomodel"] = True
+        c["files"] = {"flows/A.yaml": content}
+        c["txs"] = c["txs"] + malformed_txs(rng, 3)
+        cases.append(c)
+    return cases
+
+
+def yaml_mutants(rng, n):
+    """seeded line-level mutations of valid flow and quota files (drop a line, blank a value, duplicate a line, replace a
+    scalar by a list / map / odd scalar, shift indentation): whatever the YAML turns into, the loader has to accept it into
+    a working engine or reject it with an error (nomodel: LoadVerdict / ExecSafeVerdict only)"""
+    base = {"flows": [flow("A", [("a", "Cond"), ("g", "Gen"), ("p", "Plain")],
+                           [conn(S("start"), P("a")), conn(P("a", "hit"), P("g")), conn(P("a", "miss"), P("p")), conn(P("p"), S("end"))],
+                           [conn(S("start"), P("p")), conn(P("p"), S("end")), conn(P("g"), P("p"))])], "quotas": []}
+    flow_text = flow_yaml(base["flows"][0])
+    quota_text = (QUOTA_FILES["valid-children-percentages"][0] +
+                  "  - id: childC\n    parent_id: childA\n    filter:\n      url: h.test/x\n    strategy:\n      fixed_window:\n        max: 2\n        interval: 1\n"
+                  "        interval_unit: month\n        monthly_renewal:\n          day: 1\n          hour: 0\n          minute: 0\n          timezone: UTC\n        spillover:\n          max: 1\n")
+    quota_text2 = ("quotas:\n  - id: qa\n    filter:\n      url: h.test/x\n      method:\n        - GET\n      headers:\n        - key: x-a\n          value: \"1\"\n"
+                   "    strategy:\n      concurrent:\n        max_request_count: 2\n        request_expiration_sec: 5\n        gc_interval_sec: 1\n"
+                   "  - id: qb\n    filter:\n      url: h.test/*\n    strategy:\n      header_based:\n        quota_header: x-remaining\n        reset_header: x-reset\n        retry_after_header: retry-after\n"
+                   "  - id: qc\n    filter:\n      url: h.test/y\n    strategy:\n      fixed_window_custom_counter:\n        max: 100\n        interval: 1\n        interval_unit: minute\n        counter_value_path: $.response.headers.x-used\n")
+    lim = handcrafted()["limiter"]
+    lim_text = flow_yaml(lim["flows"][0])
+    odd = ["", " ~", " []", " {}", " [1, 2]", " {a: b}", " -1", " 1e999", " true", " \"\"", " !!binary AAAA", " *x", " &x y", " |", " 0x7fffffffffffffff"]
+    cases = []
+    for i in range(n):
+        which = rng.choice(["flow", "flow", "quota", "quota2", "lim"])
+        lines = {"flow": flow_text, "quota": quota_text, "quota2": quota_text2, "lim": lim_text}[which].split("\n")
+        for _ in range(rng.choice([1, 1, 2, 3])):
+            k = rng.randrange(len(lines))
+            m = rng.random()
+            if m < 0.25:
+                del lines[k]
+            elif m < 0.55 and ":" in lines[k]:
+                lines[k] = lines[k].split(":", 1)[0] + ":" + rng.choice(odd)
+            elif m < 0.7:
+                lines.insert(k, lines[k])
+            elif m < 0.85:
+                lines[k] = ("  " + lines[k]) if rng.random() < 0.5 else lines[k][2:]
+            else:
+                lines[k] = lines[k].replace("- ", "-\n" + " " * (len(lines[k]) - len(lines[k].lstrip())) + "- ", 1)
+            if not lines:
+                lines = [""]
+        c = make_case("ymut%d" % i, lim if which == "lim" else base)
+        c["nomodel"] = True
+        if which in ("flow", "lim"):
+            c["files"]["flows/A.yaml"] = "\n".join(lines)
+        else:
+            c["files"]["quotas/q1.yaml"] = "\n".join(lines)
+        cases.append(c)
+    return cases
